@@ -912,7 +912,7 @@ def main():
         run(chk, "thorough")
     else:
         run(chk, "quick")
-        if chk.broken() and not chk.spec_failures:
+        if (chk.broken() or chk.anchor_changed) and not chk.spec_failures:
             chk.notes.append("escalated after a broken proof/correspondence")
             run(chk, "escalated")
     chk.finish()
